@@ -24,6 +24,7 @@ const (
 	findingF03  = "F03-unary-last-binary"
 	findingF04a = "F04a-empty-operator-table"
 	findingF04b = "F04b-stack-overflow-many-priorities"
+	findingF04c = "F04c-constant-folding-runs-unbounded-recursion"
 )
 
 // deepTableLevels: from this many priority levels on, 64 KiB of nested brackets need more than the
